@@ -361,6 +361,9 @@ def run(tier, seed):
         p4 += [x for i, x in enumerate(phased_permutations(4, [1j, -1j, 1])) if i % 7 == 0]
     for label, u in p4:
         jobs.append(("default", label, u, ()))
+    if tier == "thorough":
+        for label, u in phased_permutations(5, [1, -1]):
+            jobs.append(("default", label, u, ()))
     st = structured(env, tier)
     for label, u in st:
         for lay in herald_layouts(u.shape[0]):
